@@ -50,6 +50,7 @@ pub fn nasty() -> BoxedStrategy<String> {
         1 => proptest::collection::vec(any::<char>(), 0..12).prop_map(|v| v.into_iter().filter(|c| *c != '\0').collect()),
         1 => (piece(), 20usize..300).prop_map(|(p, n)| p.repeat(n)),
         1 => Just(String::new()),
+        2 => segmented(),
     ]
     .boxed()
 }
@@ -139,4 +140,32 @@ pub fn realistic_ident() -> BoxedStrategy<String> {
         1 => super::pick(&["-", "--", "-1", "1-", "-0", "0-", "-a", "a-", "g", "g-", "-g1234567"]).prop_map(String::from),
     ]
     .boxed()
+}
+
+
+/// Segmented text with heavy zero padding: what build numbers, ticket ids and dates look like
+/// (`0000000123-linux-x64`, `007/00/a`), for the zero-stripping and truncation paths.
+pub fn segmented() -> BoxedStrategy<String> {
+    let seg = prop_oneof![
+        4 => "0{0,14}[0-9]{0,6}",
+        3 => "[a-zA-Z]{1,6}",
+        2 => "0{1,8}[a-z]{1,3}",
+        1 => "[a-z]{1,3}0{1,8}",
+        1 => Just("0".to_string()),
+        1 => "0{2,20}",
+    ];
+    let sep = super::pick(&["-", "/", ".", "_", "--", " ", "+", ".-", "é"]);
+    (proptest::collection::vec((seg, sep), 1..7), any::<bool>())
+        .prop_map(|(parts, trailing)| {
+            let mut s = String::new();
+            let n = parts.len();
+            for (i, (p, sp)) in parts.into_iter().enumerate() {
+                s.push_str(&p);
+                if i + 1 < n || trailing {
+                    s.push_str(sp);
+                }
+            }
+            s
+        })
+        .boxed()
 }
